@@ -37,6 +37,15 @@ Proof. intros. cbn. rewrite H, H0. reflexivity. Qed.
 Lemma mrun_1 : forall t t1 e1, mstep' t = (t1, e1) -> mrun' 1 t = (t1, e1).
 Proof. intros. cbn. rewrite H. now rewrite app_nil_r. Qed.
 
+Lemma mrun_app : forall n1 n2 t t1 e1 t2 e2,
+  mrun' n1 t = (t1, e1) -> mrun' n2 t1 = (t2, e2) -> mrun' (n1 + n2) t = (t2, e1 ++ e2).
+Proof.
+  induction n1 as [| n1 IH]; intros n2 t t1 e1 t2 e2 H1 H2; cbn in *.
+  - inversion H1; subst. exact H2.
+  - destruct (mstep' t) as [ta ea]. destruct (mrun' n1 ta) as [tb eb] eqn:Eb.
+    inversion H1; subst. rewrite (IH n2 ta t1 eb t2 e2 Eb H2). now rewrite app_assoc.
+Qed.
+
 Lemma mstep_done : forall t, t_done t = true -> mstep' t = (t, []).
 Proof. intros t H. unfold mstep. now rewrite H. Qed.
 
@@ -91,6 +100,30 @@ Proof.
   - eexists. split; [| reflexivity]. cbn. rewrite outputs_of_app, outputs_of_out_events. cbn. apply app_nil_r.
 Qed.
 
+(* with auto-yield on, one activation of a loop runs at most one iteration *)
+Lemma mwhile_auto : forall cond bodyf k st, (1 <= k)%nat ->
+  mwhile true cond bodyf k st =
+  if cond (m_loc st) then
+    match bodyf st with
+    | (st1, ONormal) => (st1, OYield true)
+    | (st1, OYield _) => (st1, OYield true)
+    | r => r
+    end
+  else (st, ONormal).
+Proof. intros cond bodyf k st H. destruct k; [lia | reflexivity]. Qed.
+
+Lemma mfor_auto : forall cond bodyf upd k st, (1 <= k)%nat ->
+  mfor true cond bodyf upd k st =
+  if cond (m_loc st) then
+    match bodyf st with
+    | (st1, ONormal) => (with_loc st1 (upd (m_loc st1)), OYield true)
+    | (st1, OYield true) => (with_loc st1 (upd (m_loc st1)), OYield true)
+    | (st1, OYield false) => (st1, OYield true)
+    | r => r
+    end
+  else (st, ONormal).
+Proof. intros cond bodyf upd k st H. destruct k; [lia | reflexivity]. Qed.
+
 (* ------------------------------------------------------------------ a top-level while loop *)
 Lemma while_sim : forall body idx c b ret (P : var -> Prop),
   nth_error body idx = Some (SWhile c b) -> forallb quiet b = true ->
@@ -105,16 +138,15 @@ Lemma while_sim : forall body idx c b ret (P : var -> Prop),
       end.
 Proof.
   intros body idx c b ret P Hn Hq HP Hfuel.
-  destruct fuel as [| f] eqn:Ef; [lia |].
   induction k as [| k IH]; intros lm ls ls' o r Ha E N; cbn [sloop] in E.
   - inversion E; subst. congruence.
   - assert (Ev : eval c lm = eval c ls).
     { apply (eval_agree P); auto. intros y Hy. apply HP. cbn. apply in_or_app. now left. }
-    pose proof (mstep_at body idx lm ret _ Hn) as Hst. rewrite Ef in Hst.
-    cbn [mexec mwhile m_loc] in Hst. rewrite Ev in Hst.
+    pose proof (mstep_at body idx lm ret _ Hn) as Hst.
+    cbn [mexec] in Hst. rewrite mwhile_auto in Hst by assumption. cbn [m_loc] in Hst. rewrite Ev in Hst.
     destruct (truthy (eval c ls)).
     + (* one iteration *)
-      destruct (quiet_block_sim aw (S f) b Hq (O :: [idx]) lm ls [] [] P) as (lm1 & ls1 & o1 & r1 & E1 & N1 & M1 & A1 & D1 & _).
+      destruct (quiet_block_sim aw fuel b Hq (O :: [idx]) lm ls [] [] P) as (lm1 & ls1 & o1 & r1 & E1 & N1 & M1 & A1 & D1 & _).
       { apply fresh_nil. } { assumption. }
       { intros y Hy. apply HP. cbn. apply in_or_app. now right. }
       rewrite E1 in E. rewrite M1 in Hst. cbn [app] in Hst.
@@ -123,10 +155,10 @@ Proof.
         destruct (IH lm1 ls1 l2 o2 r2 A1 E2 N) as (n & t' & ev & R & O & F).
         exists (S n), t'; eexists. split; [| split].
         -- eapply mrun_S; [exact Hst | exact R].
-        -- cbn. rewrite !outputs_of_app, outputs_of_out_events, O. cbn. reflexivity.
+        -- cbn. rewrite !outputs_of_app, outputs_of_out_events, O. cbn. now rewrite app_nil_r.
         -- destruct r2; try assumption.
-           ++ destruct F as (lm' & -> & A' & D'). exists lm'. repeat split; auto. eapply same_dom_trans; eauto.
-           ++ destruct F as (lm' & -> & A' & D'). exists lm'. repeat split; auto. eapply same_dom_trans; eauto.
+           ++ destruct F as (lm' & -> & A' & D'). exists lm'. split; [reflexivity | split; [assumption | eapply same_dom_trans; eauto]].
+           ++ destruct F as (lm' & -> & A' & D'). exists lm'. split; [reflexivity | split; [assumption | eapply same_dom_trans; eauto]].
       * inversion E; subst ls' o r. exists 1%nat; do 2 eexists. split; [| split].
         -- apply mrun_1. exact Hst.
         -- cbn. rewrite outputs_of_app, outputs_of_out_events. cbn. apply app_nil_r.
@@ -134,7 +166,395 @@ Proof.
     + inversion E; subst ls' o r. exists 1%nat; do 2 eexists. split; [| split].
       * apply mrun_1. exact Hst.
       * reflexivity.
-      * exists lm. repeat split; auto. apply same_dom_refl.
+      * exists lm. split; [reflexivity | split; [assumption | apply same_dom_refl]].
+Qed.
+
+
+(* ------------------------------------------------------------------ a top-level for loop *)
+Lemma exists_in_true : forall x l, lookup x l <> None -> exists_in x l = true.
+Proof. intros x l H. unfold exists_in. destruct (lookup x l); congruence. Qed.
+
+Lemma exists_in_false : forall x l, lookup x l = None -> exists_in x l = false.
+Proof. intros x l H. unfold exists_in. now rewrite H. Qed.
+
+Lemma mexec_for_present : forall p x i c u b st,
+  exists_in x (m_loc st) = true ->
+  MX p (SFor x i c u b) st =
+  match mfor true (fun l => truthy (eval c l)) (compound_with MX (O :: p) b)
+             (fun l => assign x (eval u l) l) fuel st with
+  | (st', ONormal) => (st', ONormal)
+  | r => r
+  end.
+Proof. intros. cbn [mexec]. rewrite H. reflexivity. Qed.
+
+Lemma mexec_for_absent : forall p x i c u b st,
+  exists_in x (m_loc st) = false ->
+  MX p (SFor x i c u b) st =
+  match mfor true (fun l => truthy (eval c l)) (compound_with MX (O :: p) b)
+             (fun l => assign x (eval u l) l) fuel
+             (with_loc st (declare x (eval i (m_loc st)) (m_loc st))) with
+  | (st', ONormal) => (with_loc st' (remove x (m_loc st')), ONormal)
+  | r => r
+  end.
+Proof. intros. cbn [mexec]. rewrite H. reflexivity. Qed.
+
+Lemma for_reentry_sim : forall body idx x i c u b ret (P : var -> Prop),
+  nth_error body idx = Some (SFor x i c u b) -> forallb quiet b = true ->
+  (forall y, In y (mentions (SFor x i c u b)) -> P y) -> (1 <= fuel)%nat ->
+  forall k lm ls ls' o r,
+    agree P lm ls -> lookup x lm <> None ->
+    sloop (fun l => truthy (eval c l)) (sblock_with SX b) (fun l => assign x (eval u l) l) k ls = (ls', o, r) ->
+    r <> SFuel ->
+    exists n t' ev, mrun' n (T body idx lm false ret) = (t', ev) /\ outputs_of ev = o /\
+      match r with
+      | SReturn_ v => exists lm', t' = T body idx lm' true (Some v)
+      | _ => exists lm', t' = T body (S idx) lm' (done_after body idx) ret /\ agree P lm' ls' /\ same_dom lm lm'
+      end.
+Proof.
+  intros body idx x i c u b ret P Hn Hq HP Hfuel.
+  assert (HPc : forall y, In y (evars c) -> P y).
+  { intros y Hy. apply HP. cbn. right. apply in_or_app. right. apply in_or_app. now left. }
+  assert (HPu : forall y, In y (evars u) -> P y).
+  { intros y Hy. apply HP. cbn. right. apply in_or_app. right. apply in_or_app. right. apply in_or_app. now left. }
+  assert (HPb : forall y, In y (flat_map mentions b) -> P y).
+  { intros y Hy. apply HP. cbn. right. apply in_or_app. right. apply in_or_app. right. apply in_or_app. now right. }
+  induction k as [| k IH]; intros lm ls ls' o r Ha Hx E N; cbn [sloop] in E.
+  - inversion E; subst. congruence.
+  - assert (Ev : eval c lm = eval c ls) by (apply (eval_agree P); auto).
+    pose proof (mstep_at body idx lm ret _ Hn) as Hst.
+    rewrite mexec_for_present in Hst by (apply exists_in_true; assumption).
+    rewrite mfor_auto in Hst by assumption. cbn [m_loc] in Hst. rewrite Ev in Hst.
+    destruct (truthy (eval c ls)).
+    + destruct (quiet_block_sim aw fuel b Hq (O :: [idx]) lm ls [] [] P) as (lm1 & ls1 & o1 & r1 & E1 & N1 & M1 & A1 & D1 & _);
+        [apply fresh_nil | assumption | assumption |].
+      rewrite E1 in E. rewrite M1 in Hst. cbn [app] in Hst.
+      destruct r1 as [| v |]; [| | congruence]; cbn [out_of m_loc m_pos m_out with_loc] in Hst.
+      * destruct (sloop _ _ _ k _) as [[l2 o2] r2] eqn:E2. inversion E; subst ls' o r.
+        assert (Eu : eval u lm1 = eval u ls1) by (apply (eval_agree P); auto).
+        destruct (IH (assign x (eval u lm1) lm1) (assign x (eval u ls1) ls1) l2 o2 r2) as (n & t' & ev & R & O & F); auto.
+        { rewrite Eu. now apply agree_assign. }
+        { intros H0. apply (same_dom_assign x (eval u lm1) lm1) in H0. apply D1 in H0. contradiction. }
+        exists (S n), t'; eexists. split; [| split].
+        -- eapply mrun_S; [exact Hst | exact R].
+        -- cbn. rewrite !outputs_of_app, outputs_of_out_events, O. cbn. now rewrite app_nil_r.
+        -- assert (DD : same_dom lm (assign x (eval u lm1) lm1)).
+           { eapply same_dom_trans; [exact D1 | apply same_dom_assign]. }
+           destruct r2; try assumption.
+           ++ destruct F as (lm' & -> & A' & D'). exists lm'.
+              split; [reflexivity | split; [assumption | eapply same_dom_trans; eauto]].
+           ++ destruct F as (lm' & -> & A' & D'). exists lm'.
+              split; [reflexivity | split; [assumption | eapply same_dom_trans; eauto]].
+      * inversion E; subst ls' o r. exists 1%nat; do 2 eexists. split; [| split].
+        -- apply mrun_1. exact Hst.
+        -- cbn. rewrite outputs_of_app, outputs_of_out_events. cbn. apply app_nil_r.
+        -- exists lm1. reflexivity.
+    + inversion E; subst ls' o r. exists 1%nat; do 2 eexists. split; [| split].
+      * apply mrun_1. exact Hst.
+      * reflexivity.
+      * exists lm. split; [reflexivity | split; [assumption | apply same_dom_refl]].
+Qed.
+
+Lemma sloop_unfold : forall cond bodyf upd k l, (1 <= k)%nat ->
+  sloop cond bodyf upd k l =
+  if cond l then
+    match bodyf l with
+    | (l1, o1, SNormal) => match sloop cond bodyf upd (Nat.pred k) (upd l1) with (l2, o2, r) => (l2, o1 ++ o2, r) end
+    | r => r
+    end
+  else (l, [], SNormal).
+Proof. intros. destruct k; [lia | reflexivity]. Qed.
+
+Lemma for_first_sim : forall body idx x i c u b ret (P : var -> Prop),
+  nth_error body idx = Some (SFor x i c u b) -> forallb quiet b = true ->
+  (forall y, In y (mentions (SFor x i c u b)) -> P y) -> (1 <= fuel)%nat ->
+  forall lm ls ls' o r,
+    agree P lm ls -> lookup x lm = None ->
+    SX (SFor x i c u b) ls = (ls', o, r) -> r <> SFuel ->
+    exists n t' ev, mrun' n (T body idx lm false ret) = (t', ev) /\ outputs_of ev = o /\
+      match r with
+      | SReturn_ v => exists lm', t' = T body idx lm' true (Some v)
+      | _ => exists lm', t' = T body (S idx) lm' (done_after body idx) ret /\
+                         agree (fun y => P y /\ y <> x) lm' ls' /\
+                         (forall z, z <> x -> (lookup z lm' = None <-> lookup z lm = None))
+      end.
+Proof.
+  intros body idx x i c u b ret P Hn Hq HP Hfuel lm ls ls' o r Ha Hx E N.
+  assert (HPi : forall y, In y (evars i) -> P y).
+  { intros y Hy. apply HP. cbn. right. apply in_or_app. now left. }
+  assert (HPc : forall y, In y (evars c) -> P y).
+  { intros y Hy. apply HP. cbn. right. apply in_or_app. right. apply in_or_app. now left. }
+  assert (HPu : forall y, In y (evars u) -> P y).
+  { intros y Hy. apply HP. cbn. right. apply in_or_app. right. apply in_or_app. right. apply in_or_app. now left. }
+  assert (HPb : forall y, In y (flat_map mentions b) -> P y).
+  { intros y Hy. apply HP. cbn. right. apply in_or_app. right. apply in_or_app. right. apply in_or_app. now right. }
+  assert (Ei : eval i lm = eval i ls) by (apply (eval_agree P); auto).
+  set (lm0 := declare x (eval i lm) lm). set (ls0 := declare x (eval i ls) ls).
+  assert (A0 : agree P lm0 ls0).
+  { intros y Hy. unfold lm0, ls0. rewrite !lookup_declare, Ei. destruct (Nat.eqb y x); auto. }
+  assert (Hdom0 : forall z, z <> x -> lookup z lm0 = lookup z lm).
+  { intros z Hz. unfold lm0. rewrite lookup_declare. apply Nat.eqb_neq in Hz. now rewrite Hz. }
+  assert (Hx0 : lookup x lm0 <> None).
+  { unfold lm0. rewrite lookup_declare, Nat.eqb_refl. discriminate. }
+  cbn [sexec] in E. fold ls0 in E. rewrite sloop_unfold in E by assumption.
+  assert (Ev : eval c lm0 = eval c ls0) by (apply (eval_agree P); auto).
+  pose proof (mstep_at body idx lm ret _ Hn) as Hst.
+  rewrite mexec_for_absent in Hst by (apply exists_in_false; assumption).
+  unfold with_loc in Hst. cbn [m_loc m_pos m_out] in Hst. fold lm0 in Hst.
+  rewrite mfor_auto in Hst by assumption. cbn [m_loc] in Hst. rewrite Ev in Hst.
+  destruct (truthy (eval c ls0)).
+  - destruct (quiet_block_sim aw fuel b Hq (O :: [idx]) lm0 ls0 [] [] P) as (lm1 & ls1 & o1 & r1 & E1 & N1 & M1 & A1 & D1 & _);
+      [apply fresh_nil | assumption | assumption |].
+    rewrite E1 in E. rewrite M1 in Hst. cbn [app] in Hst.
+    destruct r1 as [| v |]; [| | congruence]; cbn [out_of m_loc m_pos m_out with_loc] in Hst.
+    + destruct (sloop _ _ _ (Nat.pred fuel) _) as [[l2 o2] r2] eqn:E2.
+      assert (Eu : eval u lm1 = eval u ls1) by (apply (eval_agree P); auto).
+      assert (N2 : r2 <> SFuel).
+      { intros ->. inversion E; subst. congruence. }
+      destruct (for_reentry_sim body idx x i c u b ret P Hn Hq HP Hfuel (Nat.pred fuel)
+                  (assign x (eval u lm1) lm1) (assign x (eval u ls1) ls1) l2 o2 r2) as (n & t' & ev & R & O & F); auto.
+      { rewrite Eu. now apply agree_assign. }
+      { intros H0. apply (same_dom_assign x (eval u lm1) lm1) in H0. apply D1 in H0. contradiction. }
+      assert (DD : same_dom lm0 (assign x (eval u lm1) lm1)).
+      { eapply same_dom_trans; [exact D1 | apply same_dom_assign]. }
+      exists (S n), t'; eexists. split; [| split].
+      * eapply mrun_S; [exact Hst | exact R].
+      * cbn. rewrite !outputs_of_app, outputs_of_out_events, O. cbn. rewrite app_nil_r.
+        destruct r2; inversion E; subst; reflexivity.
+      * destruct r2; inversion E; subst; try congruence; try exact F.
+        destruct F as (lm' & -> & A' & D'). exists lm'. split; [reflexivity | split].
+        -- intros y [Hy Hyx]. rewrite lookup_remove. apply Nat.eqb_neq in Hyx. rewrite Hyx. now apply A'.
+        -- intros z Hz. rewrite <- (Hdom0 z Hz). specialize (D' z). specialize (DD z). tauto.
+    + inversion E; subst ls' o r. exists 1%nat; do 2 eexists. split; [| split].
+      * apply mrun_1. exact Hst.
+      * cbn. rewrite outputs_of_app, outputs_of_out_events. cbn. apply app_nil_r.
+      * exists lm1. reflexivity.
+  - inversion E; subst ls' o r. cbn [with_loc m_loc m_pos m_out] in Hst.
+    exists 1%nat; do 2 eexists. split; [| split].
+    + apply mrun_1. exact Hst.
+    + reflexivity.
+    + exists (remove x lm0). split; [reflexivity | split].
+      * intros y [Hy Hyx]. rewrite !lookup_remove. apply Nat.eqb_neq in Hyx. rewrite Hyx. now apply A0.
+      * intros z Hz. rewrite lookup_remove. pose proof Hz as Hz'. apply Nat.eqb_neq in Hz'. rewrite Hz'.
+        rewrite (Hdom0 z Hz). tauto.
+Qed.
+
+
+(* ------------------------------------------------------------------ the whole body *)
+Lemma top_ok_cases : forall s, top_ok s = true ->
+  s = SYield \/ quiet s = true \/
+  (exists c b, s = SWhile c b /\ forallb quiet b = true) \/
+  (exists x i c u b, s = SFor x i c u b /\ forallb quiet b = true).
+Proof.
+  intros s H. destruct s; cbn in H |- *; auto.
+  - right; right; left; eauto.
+  - right; right; right. do 5 eexists. eauto.
+Qed.
+
+Lemma quiet_for_var : forall s, quiet s = true -> for_var s = [].
+Proof. intros s H. destruct s; cbn in *; try reflexivity; discriminate. Qed.
+
+Lemma for_var_mentions : forall s z, In z (for_var s) -> In z (mentions s).
+Proof. intros s z H. destruct s; cbn in *; try contradiction. destruct H as [-> | []]. now left. Qed.
+
+Lemma hygienic_cons : forall X s r, hygienic X (s :: r) = true ->
+  (forall y, In y (mentions s) -> ~ In y X) /\ hygienic (X ++ for_var s) r = true.
+Proof. intros X s r H. cbn in H. apply andb_true_iff in H as [H1 H2]. split; [now apply disjointb_spec | assumption]. Qed.
+
+Lemma hygienic_for_vars : forall r X, hygienic X r = true -> forall z, In z (flat_map for_var r) -> ~ In z X.
+Proof.
+  induction r as [| s r IH]; intros X H z Hz; [contradiction |].
+  apply hygienic_cons in H as [H1 H2]. cbn in Hz. apply in_app_or in Hz as [Hz | Hz].
+  - apply H1. now apply for_var_mentions.
+  - intros Hin. apply (IH _ H2 z Hz). apply in_or_app. now left.
+Qed.
+
+Lemma nth_error_mid : forall (pre : list stmt) s rest, nth_error (pre ++ s :: rest) (length pre) = Some s.
+Proof. intros. rewrite nth_error_app2 by lia. now rewrite Nat.sub_diag. Qed.
+
+Lemma done_after_mid : forall (pre : list stmt) s rest,
+  done_after (pre ++ s :: rest) (length pre) = true -> rest = [].
+Proof.
+  intros pre s rest H. unfold done_after in H. apply negb_true_iff, Nat.ltb_ge in H.
+  rewrite app_length in H. cbn in H. destruct rest; [reflexivity | cbn in H; lia].
+Qed.
+
+Lemma app_cons_assoc : forall (pre : list stmt) s rest, pre ++ s :: rest = (pre ++ [s]) ++ rest.
+Proof. intros. now rewrite <- app_assoc. Qed.
+
+Lemma fuel_pos_of_loop : forall cond bodyf upd l r, sloop cond bodyf upd fuel l = r -> snd r <> SFuel -> (1 <= fuel)%nat.
+Proof. intros cond bodyf upd l r H N. destruct fuel; [| lia]. cbn in H. subst r. cbn in N. congruence. Qed.
+
+Lemma tail_sim : forall rest pre lm ls X ret0 dn,
+  forallb top_ok rest = true ->
+  hygienic X rest = true ->
+  (forall z, In z (flat_map for_var rest) -> lookup z lm = None) ->
+  agree (fun y => ~ In y X) lm ls ->
+  (dn = true -> rest = []) ->
+  forall ls' out r, sblock_with SX rest ls = (ls', out, r) -> r <> SFuel ->
+  exists n t' ev, mrun' n (T (pre ++ rest) (length pre) lm dn ret0) = (t', ev) /\
+    t_done t' = true /\ t_stuck t' = false /\ outputs_of ev = out /\ t_ret t' = ret_of r ret0 /\
+    (r = SNormal -> agree (fun y => ~ In y (X ++ flat_map for_var rest)) (t_loc t') ls').
+Proof.
+  induction rest as [| s rest IH]; intros pre lm ls X ret0 dn Htop Hhyg Habs Ha Hdn ls' out r E N.
+  - cbn in E. inversion E; subst ls' out r. destruct dn.
+    + exists 0%nat; do 2 eexists. cbn. repeat split; auto. intros _. cbn [flat_map]. rewrite app_nil_r. assumption.
+    + exists 1%nat; do 2 eexists. split.
+      { apply mrun_1. unfold mstep, T. cbn [t_done t_stuck orb t_body t_idx].
+        rewrite app_nil_r. rewrite (proj2 (nth_error_None pre (length pre))) by lia. reflexivity. }
+      cbn. repeat split; auto. intros _. rewrite app_nil_r. assumption.
+  - assert (dn = false) as -> by (destruct dn; [specialize (Hdn eq_refl); discriminate | reflexivity]).
+    cbn [forallb] in Htop. apply andb_true_iff in Htop as [Hs Htop].
+    apply hygienic_cons in Hhyg as [HP Hhyg].
+    pose proof (nth_error_mid pre s rest) as Hn.
+    cbn [sblock_with] in E. fold (sblock_with SX) in E.
+    set (body := pre ++ s :: rest) in *.
+    assert (Hbody : body = (pre ++ [s]) ++ rest) by apply app_cons_assoc.
+    assert (Hlen : length (pre ++ [s]) = S (length pre)) by (rewrite app_length; cbn; lia).
+    destruct (top_ok_cases s Hs) as [-> | [Hq | [(c & b & -> & Hq) | (x & i & c & u & b & -> & Hq)]]].
+    + (* yield *)
+      cbn [sexec] in E.
+      destruct (sblock_with SX rest ls) as [[l2 o2] r2] eqn:E2. inversion E; subst ls' out r.
+      destruct (IH (pre ++ [SYield]) lm ls X ret0 false) with (ls' := l2) (out := o2) (r := r2)
+        as (n & t' & ev & R & F); auto.
+      { cbn [for_var] in Hhyg. now rewrite app_nil_r in Hhyg. }
+      { discriminate. }
+      rewrite Hlen, <- Hbody in R.
+      exists (S n), t'; eexists. split.
+      { eapply mrun_S; [| exact R]. rewrite (mstep_at body (length pre) lm ret0 _ Hn). cbn. reflexivity. }
+      destruct F as (F1 & F2 & F3 & F4 & F5). repeat split; auto.
+    + (* quiet statement *)
+      destruct (step_quiet body (length pre) s ret0 (fun y => ~ In y X) lm ls Hn Hq HP Ha)
+        as (lm1 & ls1 & o1 & r1 & E1 & N1 & A1 & D1 & ev1 & O1 & St1).
+      rewrite E1 in E. rewrite (quiet_for_var s Hq), app_nil_r in Hhyg.
+      destruct r1 as [| v |]; [| | congruence].
+      * destruct (sblock_with SX rest ls1) as [[l2 o2] r2] eqn:E2. inversion E; subst ls' out r.
+        destruct (IH (pre ++ [s]) lm1 ls1 X ret0 (done_after body (length pre))) with (ls' := l2) (out := o2) (r := r2)
+          as (n & t' & ev & R & F); auto.
+        { intros z Hz. apply D1. apply Habs. cbn [flat_map]. apply in_or_app. now right. }
+        { apply done_after_mid. }
+        rewrite Hlen, <- Hbody in R.
+        exists (S n), t'; eexists. split.
+        { eapply mrun_S; [exact St1 | exact R]. }
+        destruct F as (F1 & F2 & F3 & F4 & F5). repeat split; auto.
+        -- rewrite outputs_of_app, O1, F3. reflexivity.
+        -- intros Hr. cbn [flat_map]. rewrite (quiet_for_var s Hq). cbn [app]. auto.
+      * inversion E; subst ls' out r. exists 1%nat; do 2 eexists. split.
+        { apply mrun_1. exact St1. }
+        cbn. repeat split; auto. discriminate.
+    + (* while *)
+      cbn [sexec] in E.
+      destruct (sloop _ _ _ fuel ls) as [[l1 o1] r1] eqn:E1.
+      assert (N1 : r1 <> SFuel) by (intros ->; inversion E; subst; congruence).
+      assert (Hfuel : (1 <= fuel)%nat) by (eapply fuel_pos_of_loop; [exact E1 | exact N1]).
+      destruct (while_sim body (length pre) c b ret0 (fun y => ~ In y X) Hn Hq HP Hfuel fuel lm ls l1 o1 r1 Ha E1 N1)
+        as (n1 & t1 & ev1 & R1 & O1 & F1).
+      cbn [for_var] in Hhyg. rewrite app_nil_r in Hhyg.
+      destruct r1 as [| v |]; [| | congruence].
+      * destruct F1 as (lm1 & -> & A1 & D1).
+        destruct (sblock_with SX rest l1) as [[l2 o2] r2] eqn:E2. inversion E; subst ls' out r.
+        destruct (IH (pre ++ [SWhile c b]) lm1 l1 X ret0 (done_after body (length pre))) with (ls' := l2) (out := o2) (r := r2)
+          as (n & t' & ev & R & F); auto.
+        { intros z Hz. apply D1. apply Habs. cbn [flat_map]. apply in_or_app. now right. }
+        { apply done_after_mid. }
+        rewrite Hlen, <- Hbody in R.
+        exists (n1 + n)%nat, t'; eexists. split.
+        { apply mrun_app with (t1 := T body (S (length pre)) lm1 (done_after body (length pre)) ret0); eassumption. }
+        destruct F as (F1 & F2 & F3 & F4 & F5). repeat split; auto.
+        rewrite outputs_of_app, O1, F3. reflexivity.
+      * destruct F1 as (lm1 & ->). inversion E; subst ls' out r. exists n1; do 2 eexists. split; [exact R1 |].
+        cbn. repeat split; auto. discriminate.
+    + (* for *)
+      destruct (SX (SFor x i c u b) ls) as [[l1 o1] r1] eqn:E1.
+      assert (N1 : r1 <> SFuel) by (intros ->; inversion E; subst; congruence).
+      assert (Hfuel : (1 <= fuel)%nat).
+      { destruct fuel; [| lia]. cbn in E1. inversion E1; subst. congruence. }
+      assert (Hx : lookup x lm = None).
+      { apply Habs. cbn. now left. }
+      destruct (for_first_sim body (length pre) x i c u b ret0 (fun y => ~ In y X) Hn Hq HP Hfuel lm ls l1 o1 r1 Ha Hx E1 N1)
+        as (n1 & t1 & ev1 & R1 & O1 & F1).
+      cbn [for_var] in Hhyg.
+      destruct r1 as [| v |]; [| | congruence].
+      * destruct F1 as (lm1 & -> & A1 & D1).
+        destruct (sblock_with SX rest l1) as [[l2 o2] r2] eqn:E2. inversion E; subst ls' out r.
+        destruct (IH (pre ++ [SFor x i c u b]) lm1 l1 (X ++ [x]) ret0 (done_after body (length pre))) with (ls' := l2) (out := o2) (r := r2)
+          as (n & t' & ev & R & F); auto.
+        { intros z Hz. assert (z <> x).
+          { intros ->. apply (hygienic_for_vars rest _ Hhyg x Hz). apply in_or_app. right. now left. }
+          apply D1; [assumption |]. apply Habs. cbn [flat_map]. apply in_or_app. now right. }
+        { intros y Hy. apply A1. split.
+          - intros Hin. apply Hy. apply in_or_app. now left.
+          - intros ->. apply Hy. apply in_or_app. right. now left. }
+        { apply done_after_mid. }
+        rewrite Hlen, <- Hbody in R.
+        exists (n1 + n)%nat, t'; eexists. split.
+        { apply mrun_app with (t1 := T body (S (length pre)) lm1 (done_after body (length pre)) ret0); eassumption. }
+        destruct F as (F1 & F2 & F3 & F4 & F5). repeat split; auto.
+        -- rewrite outputs_of_app, O1, F3. reflexivity.
+        -- intros Hr. cbn [flat_map for_var]. cbn [app]. specialize (F5 Hr).
+           rewrite <- app_assoc in F5. exact F5.
+      * destruct F1 as (lm1 & ->). inversion E; subst ls' out r. exists n1; do 2 eexists. split; [exact R1 |].
+        cbn. repeat split; auto. discriminate.
+Qed.
+
+
+Lemma register_auto_true : forall body, register_auto body = true.
+Proof. intros body. unfold register_auto. destruct (negb (existsb has_yield body)); reflexivity. Qed.
+
+Lemma lookup_not_in : forall z (l : locals), ~ In z (map fst l) -> lookup z l = None.
+Proof.
+  induction l as [| [y v] l IH]; cbn; intros H; [reflexivity |].
+  destruct (Nat.eqb z y) eqn:E.
+  - apply Nat.eqb_eq in E. subst. exfalso. apply H. now left.
+  - apply IH. intros Hin. apply H. now right.
+Qed.
+
+(* Main refinement: for every body of the fragment, every argument list, every await oracle: if the
+   body run alone ends (normally or by return) then after finitely many step grants the task is
+   complete, and for every larger number of grants the concatenated output of the steps, the result
+   and the locals (off the loop variables) are those of the body run alone. *)
+Theorem resume_refines_sequential_l : forall body args ls' out r,
+  wf_body (map fst args) body = true ->
+  spec_run aw fuel body args = (ls', out, r) -> r <> SFuel ->
+  exists n t' ev,
+    (forall m, (n <= m)%nat -> mrun' m (spawn body args) = (t', ev)) /\
+    t_done t' = true /\ t_stuck t' = false /\ outputs_of ev = out /\
+    t_ret t' = ret_of r None /\
+    (r = SNormal -> forall y, ~ In y (flat_map for_var body) -> lookup y (t_loc t') = lookup y ls').
+Proof.
+  intros body args ls' out r Hwf E N. unfold wf_body in Hwf.
+  apply andb_true_iff in Hwf as [Hwf Hh]. apply andb_true_iff in Hwf as [Ht Hd].
+  destruct (tail_sim body [] args args [] None false Ht Hh) with (ls' := ls') (out := out) (r := r)
+    as (n & t' & ev & R & F1 & F2 & F3 & F4 & F5); auto.
+  - intros z Hz. apply lookup_not_in. rewrite disjointb_spec in Hd. now apply Hd.
+  - apply agree_refl.
+  - discriminate.
+  - exists n, t', ev. split; [| split; [assumption | split; [assumption | split; [assumption | split; [assumption |]]]]].
+    + intros m Hm. unfold spawn. rewrite register_auto_true.
+      replace m with (n + (m - n))%nat by lia.
+      cbn [app length] in R. unfold T in R.
+      rewrite (mrun_app n (m - n) _ t' ev t' []); [now rewrite app_nil_r | exact R | now apply mrun_done].
+    + intros Hr y Hy. apply (F5 Hr). exact Hy.
+Qed.
+
+
+(* one step on a statement without yields and loops = that statement run sequentially on the saved locals *)
+Lemma locals_survive_l : forall body idx s ret lm,
+  nth_error body idx = Some s -> quiet s = true ->
+  exists lm' ls' o r,
+    SX s lm = (ls', o, r) /\ r <> SFuel /\ (forall y, lookup y lm' = lookup y ls') /\
+    exists ev, outputs_of ev = o /\
+      mstep' (T body idx lm false ret) =
+      (match r with
+       | SReturn_ v => T body idx lm' true (Some v)
+       | _ => T body (S idx) lm' (done_after body idx) ret
+       end, ev).
+Proof.
+  intros body idx s ret lm Hn Hq.
+  destruct (step_quiet body idx s ret (fun _ => True) lm lm Hn Hq (fun _ _ => I) (agree_refl _ lm))
+    as (lm' & ls' & o & r & E & N & A & D & ev & O & St).
+  exists lm', ls', o, r. split; [exact E |]. split; [exact N |]. split.
+  - intros y. now apply A.
+  - exists ev. split; [exact O | exact St].
 Qed.
 
 End R.
